@@ -29,6 +29,11 @@ pub(crate) mod multi_h {
 pub(crate) mod proto_h {
     include!(concat!(env!("NUCLEO_VERIF_DIR"), "/nucleo/proto_h.rs"));
 }
+#[cfg(any(kani, nucleo_verif_shims))]
+#[allow(dead_code, unused_imports, unused_macros, unused_variables, unused_assignments, unexpected_cfgs)]
+pub(crate) mod scored_h {
+    include!(concat!(env!("NUCLEO_VERIF_DIR"), "/nucleo/scored_h.rs"));
+}
 #[cfg(not(kani))]
 #[allow(dead_code, unused_imports, unused_macros, unused_variables, unused_assignments, unexpected_cfgs)]
 pub(crate) mod miri_h {
